@@ -115,6 +115,9 @@ func genStderr(tape *simrt.Tape, n int) []stderrLine {
 			l.Text = fmt.Sprintf("Other/%d/case: not in this batch", i)
 		case 3:
 			l.Text = fmt.Sprintf("plain log line %d", i)
+			if tape.Bool(1, 2, "s.percent") {
+				l.Text = fmt.Sprintf("log line %d: 100%% done, path /Unary%%2Fx, bad escape %%zz %%d %%s", i)
+			}
 		case 4:
 			l.Text = "   "
 		case 5:
@@ -157,7 +160,14 @@ func genServer(tape *simrt.Tape, n int, useTLS bool, refServer bool, id int) (se
 	case 2:
 		sc.LatencyMs = 9990 + tape.Choose(20, "s.ms") // around the 10 s server response timeout
 	}
-	sc.AbortDelayMs = []int{0, 0, 1, 100, 2999, 4999, 5001}[tape.Choose(7, "s.abortdelay")]
+	// (the last two: a server that takes very long to stop, or practically never does)
+	sc.AbortDelayMs = []int{0, 0, 1, 100, 2999, 4999, 5001, 60000, 3600000}[tape.Choose(9, "s.abortdelay")]
+	if refServer && sc.AbortDelayMs > 5001 {
+		// the runner reads a reference server's stderr to its end, i.e. until the
+		// server is gone: a reference server that does not stop is outside the
+		// fault set of the property (and would be waited for, by design)
+		sc.AbortDelayMs = 5001
+	}
 	sc.ExitNonZero = tape.Bool(1, 4, "s.nonzero")
 	fault := "none"
 	if tape.Bool(1, 2, "s.faulty") {
@@ -434,7 +444,8 @@ func c11Body(tape *simrt.Tape, o simwork.Opts, res *simwork.Result) {
 		}
 	}
 	bound := time.Duration(cs.Server.LatencyMs)*time.Millisecond + serverResponseTimeout + maxDelay + 2*clientResponseTimeout +
-		3*time.Second + 3*gracefulShutdownPeriod + time.Duration(cs.Server.AbortDelayMs+cs.Client.AbortDelayMs)*time.Millisecond + time.Second +
+		3*time.Second + 3*gracefulShutdownPeriod + min(time.Duration(cs.Server.AbortDelayMs)*time.Millisecond, gracefulShutdownPeriod+time.Millisecond) +
+		min(time.Duration(cs.Client.AbortDelayMs)*time.Millisecond, gracefulShutdownPeriod) + time.Second +
 		time.Duration(sim.DelayedRunnable)*5*time.Second
 	if returnedAt > bound {
 		viol("c11/liveness/bound", "runTestCasesForServer took %s, bound %s", returnedAt, bound)
@@ -592,7 +603,9 @@ func c11Body(tape *simrt.Tape, o simwork.Opts, res *simwork.Result) {
 	if startedAtReturn && !exitedAtReturn && !abortedAtReturn {
 		viol("c11/server-not-stopped", "runTestCasesForServer returned while the server was running and its context was not cancelled")
 	}
-	if server.started && !server.exited {
+	if server.started && !server.exited && time.Duration(cs.Server.AbortDelayMs)*time.Millisecond <= gracefulShutdownPeriod+time.Millisecond {
+		// (a server that needs longer than the grace period is abandoned: a real
+		// process would be killed by the process abstraction, which is not simulated)
 		viol("c11/server-leaked", "server process still running at the end of the run (ctx cancelled at %s)", server.ctxDoneAt)
 	}
 
